@@ -16,9 +16,9 @@ ID = "C07"
 LEVEL = "exploration"
 TECHNIQUE = "runtime monitor: cross-process differential digests (hash seed, process history, pauses, wall-clock speed varied) + per-fire delivery-order check"
 RULE = ("each case is a batch of 6 generated stochastic programs (float/int/Duration clocks, seeded streams, stochastic "
-        "delays, simulation statistics, 1-2 fan-out event types with 2-4 listeners each) executed by 6 child "
-        "interpreters: PYTHONHASHSEED in {0, 1, 4242, random} x prior activity in {none, 1000 events, objects + "
-        "unrelated replication} x pauses x injected sleeps; non-trivial = program with >= 10 executed events, >= 4 "
+        "delays, simulation statistics, 1-2 fan-out event types with 2-4 listeners each) executed by 7 child "
+        "interpreters: PYTHONHASHSEED in {0, 1, 4242, 7, random} x prior activity in {none, 3000 events, objects + "
+        "unrelated replication} x pauses x injected sleeps x bounded chunks (run_up_to, last chunk beyond the end); non-trivial = program with >= 10 executed events, >= 4 "
         "listener deliveries and >= 2 listener draws; distinct = canonical program hash")
 ASSUMPTIONS = ["'independent of wall-clock speed' is observed through injected sleeps and forced pauses only",
                "event ids and object identities are never part of a digest; only their effect on order would show"]
@@ -49,7 +49,9 @@ def gen_case(rng, tier, i):
             {"hashseed": "4242", "prior": "objects", "pauses": [rng.randint(1, 5)], "sleeps": False},
             {"hashseed": str(rng.randint(2, 2 ** 32 - 1)), "prior": "none", "pauses": [rng.randint(1, 4), rng.randint(1, 4)], "sleeps": True},
             {"hashseed": str(rng.randint(2, 2 ** 32 - 1)), "prior": "events", "pauses": [], "sleeps": True},
-            {"hashseed": "random", "prior": "objects", "pauses": [rng.randint(1, 9)], "sleeps": False}]
+            {"hashseed": "random", "prior": "objects", "pauses": [rng.randint(1, 9)], "sleeps": False},
+            {"hashseed": "7", "prior": "none", "pauses": [], "sleeps": False,
+             "chunks": sorted([rng.choice([0.1, 0.25, 0.4]), rng.choice([0.5, 0.75, 0.9])]) + [rng.choice([1.25, 2.0])]}]
     return {"programs": progs, "configs": cfgs}
 
 
@@ -97,8 +99,15 @@ def run_case(case, ctx):
         for cfg, o in zip(case["configs"][1:], outs[1:]):
             r = o[pi]
             ctx.count("digests_compared")
-            if r["digest"] != r0["digest"]:
+            if cfg.get("chunks"):
+                # a bounded run moves the clock to its bound without a TIME_CHANGED notification, so that stream depends
+                # on the segmentation by design (bounded segmentation is C03's subject): everything else must agree
+                parts = [k for k in r0["parts"] if k != "notifications" and r0["parts"][k] != r["parts"][k]]
+                differs = bool(parts)
+            else:
                 parts = [k for k in r0["parts"] if r0["parts"][k] != r["parts"][k]]
+                differs = r["digest"] != r0["digest"]
+            if differs:
                 varied = [k for k in ("hashseed", "prior", "pauses", "sleeps") if cfg[k] != case["configs"][0][k]]
                 ctx.viol(f"digest-differs:{'+'.join(parts)}", {"program_index": pi, "config": cfg, "reference_config": case["configs"][0],
                                                              "varied": varied, "clock": prog["clock"],
